@@ -1935,7 +1935,13 @@ def _bool_pair_buckets(node: ast.FunctionDef) -> bool:
                 att = parents.get(id(sub))
                 call = parents.get(id(att))
                 ex = parents.get(id(call))
-                if isinstance(sub, ast.Subscript) and sub.value is u and isinstance(sub.slice, (ast.Compare, ast.BoolOp, ast.UnaryOp)) and \
+                if isinstance(sub, ast.Subscript) and sub.value is u and isinstance(sub.slice, ast.Call) and isinstance(sub.slice.func, ast.Name) and \
+                        sub.slice.func.id == "bool" and len(sub.slice.args) == 1 and not sub.slice.keywords:
+                    sub.slice = sub.slice.args[0]          # pair[bool(x)]: the truth of x
+                    truthy = True
+                else:
+                    truthy = False
+                if isinstance(sub, ast.Subscript) and sub.value is u and (truthy or isinstance(sub.slice, (ast.Compare, ast.BoolOp, ast.UnaryOp))) and \
                         isinstance(att, ast.Attribute) and att.attr == "append" and isinstance(call, ast.Call) and call.func is att and \
                         len(call.args) == 1 and isinstance(ex, ast.Expr):
                     fills.append((ex, sub, call))
